@@ -1587,6 +1587,7 @@ struct ExtractSpec {
     abstracts: Vec<(String, String)>,
     line: usize,
     spec_only: bool,
+    forced_spec_only: bool,
     iter_params: Vec<String>,
     contract_file: Option<String>,
     until: Option<String>,
@@ -1729,10 +1730,43 @@ impl Unit {
     }
 
     fn extract(&mut self, spec: &ExtractSpec) {
+        // FJX_FORCE_SPEC_ONLY=name,name (set by bin/check after the generated file was rejected inside these functions): the function is
+        // emitted as a declaration with its contract ASSUMED (body dropped), so that the rest of the unit can still be decided; bin/check
+        // reports the function itself, and every property it serves, as UNDECIDED
+        let forced: Vec<String> = std::env::var("FJX_FORCE_SPEC_ONLY").unwrap_or_default().split(',').map(|x| x.to_string()).filter(|x| !x.is_empty()).collect();
+        let emitted = spec.rename.clone().unwrap_or(spec.name.clone());
+        let mut spec_owned;
+        let spec: &ExtractSpec = if forced.contains(&emitted) && !spec.spec_only {
+            spec_owned = spec.clone();
+            spec_owned.spec_only = true;
+            spec_owned.loops.clear();
+            spec_owned.proofs.clear();
+            spec_owned.optional_proofs.clear();
+            spec_owned.abstracts.clear();
+            spec_owned.until = None;
+            spec_owned.forced_spec_only = true;
+            &spec_owned
+        } else {
+            spec
+        };
         let mut found = self.find_fn(spec);
         let mut log: Vec<String> = vec![];
+        if spec.forced_spec_only {
+            log.push("FORCED-SPEC-ONLY: body dropped after a type error inside it; contract assumed; the function is reported UNDECIDED".into());
+            found.block = parse_quote! { { unimplemented!() } };
+            if let (Some(_), Some(sig_text)) = (&spec.stmt_anchor, &spec.sig_text) {
+                let item: syn::ItemFn = syn::parse_str(&format!("{sig_text} {{}}")).unwrap_or_else(|e| die(&format!("cannot parse //@sig: {e}")));
+                found.sig = item.sig;
+                found.vis = parse_quote! { pub };
+                found.attrs = vec![];
+                let has_receiver = matches!(found.sig.inputs.first(), Some(syn::FnArg::Receiver(_)));
+                if !has_receiver { found.impl_header = None; }
+                found.assoc_types = vec![];
+                found.other_items = vec![];
+            }
+        }
         // R-SLICE (statement form): one statement of a large function, verified as a function of its free variables
-        if let Some(needle) = &spec.stmt_anchor {
+        if let (Some(needle), false) = (&spec.stmt_anchor, spec.forced_spec_only) {
             use syn::spanned::Spanned;
             struct Finder<'a> {
                 needle: &'a str,
